@@ -813,6 +813,9 @@ def _read_asn1_integer(
 
     raw_int, consumed = _validate_tag(data, tag, header=header, hint=hint)
     b_int = bytearray(raw_int)
+    if not b_int:
+        hint_str = f" for {hint}" if hint else ""
+        raise ValueError(f"Invalid INTEGER value{hint_str}: no content octets")
 
     is_negative = b_int[0] & 0b10000000
     if is_negative:
